@@ -145,6 +145,8 @@ type Stats struct {
 	Found        []Found
 	Samples      [][]string
 	Complete     bool
+	// Why lists (a few of) the reasons for Complete being false.
+	Why []string
 }
 
 func NewStats() *Stats { return &Stats{Digests: map[string]int{}, Complete: true} }
@@ -171,6 +173,11 @@ func (s *Stats) Merge(o *Stats) {
 	}
 	if !o.Complete {
 		s.Complete = false
+	}
+	for _, y := range o.Why {
+		if len(s.Why) < 4 {
+			s.Why = append(s.Why, y)
+		}
 	}
 }
 
@@ -202,6 +209,9 @@ func (e *Explorer) Explore(prefix []string, devs int) {
 	}
 	if (e.Budget > 0 && e.Stats.Executions >= e.Budget) || Tainted {
 		e.Stats.Complete = false
+		if len(e.Stats.Why) < 4 {
+			e.Stats.Why = append(e.Stats.Why, fmt.Sprintf("execution budget %d reached or worker tainted (%v)", e.Budget, Tainted))
+		}
 		return
 	}
 	e.note(prefix)
@@ -219,12 +229,18 @@ func (e *Explorer) Explore(prefix []string, devs int) {
 		if !ok {
 			st.Diverged++
 			st.Complete = false
+			if len(st.Why) < 4 {
+				st.Why = append(st.Why, fmt.Sprintf("replay diverged at action %d of prefix %v", x.DivergeAt, prefix))
+			}
 			return
 		}
 	}
 	if x.Truncated {
 		st.Truncated++
 		st.Complete = false
+		if len(st.Why) < 4 {
+			st.Why = append(st.Why, fmt.Sprintf("execution cut at %d actions, prefix %v", len(x.Points), prefix))
+		}
 	}
 	n := len(x.Points)
 	if n > st.MaxLen {
